@@ -169,12 +169,62 @@ def check(fs, timeout_ms, **opts):
     return r, s, dt
 
 
+TERM_AXIOMS = []  # callables: iterable of ground subterms -> list of facts (theory lemmas on demand)
+
+
+def symbols(f):
+    out = set()
+    for t in _subterms([f]):
+        if z3.is_quantifier(t):
+            out |= symbols(t.body())
+        elif z3.is_app(t) and t.decl().kind() == z3.Z3_OP_UNINTERPRETED:
+            out.add(t.decl().name())
+    return out
+
+
+GLOBAL_SYMBOLS = {"AL", "AL16", "ord", "NEG", "POS", "ext", "parentp", "lastk", "ROOTP"}
+
+
+def cone(prem, goal):
+    """premises connected to the goal through shared uninterpreted symbols
+    (dropping the others only removes premises: sound for proofs)"""
+    full = [symbols(c) for c in prem]
+    syms = [sy - GLOBAL_SYMBOLS for sy in full]
+    cur = symbols(goal) - GLOBAL_SYMBOLS
+    gl = symbols(goal) & GLOBAL_SYMBOLS
+    keep = [False] * len(prem)
+    changed = True
+    while changed:
+        changed = False
+        for i, sy in enumerate(syms):
+            if not keep[i] and sy and (sy & cur):
+                keep[i] = True
+                gl |= full[i] & GLOBAL_SYMBOLS
+                if sy - cur:
+                    cur |= sy
+                    changed = True
+    # axioms over global symbols only: kept when one of their symbols is in play
+    for i, sy in enumerate(syms):
+        if not sy and (full[i] & gl or not full[i]):
+            keep[i] = True
+    return [c for c, k in zip(prem, keep) if k]
+
+
+def term_axioms(fs):
+    out = []
+    terms = list(_subterms(fs))
+    for gen in TERM_AXIOMS:
+        out += gen(terms)
+    return out
+
+
 def discharge(premises, goal, timeout_ms=10000, hints=None):
     """-> dict(status, stage, time_s, detail)"""
     t0 = time.time()
     prem = []
     for c in premises:
         prem += flatten_and(c)
+    prem = cone(prem, goal)
     ground = [c for c in prem if not _has_quant(c)]
     quant = [c for c in prem if z3.is_quantifier(c) and c.is_forall()]
     odd = [c for c in prem if _has_quant(c) and not (z3.is_quantifier(c) and c.is_forall())]
@@ -208,6 +258,7 @@ def discharge(premises, goal, timeout_ms=10000, hints=None):
         inst = instantiate(quant, ints2, strs2)
         ints, strs = ints2, strs2
     fs = base + inst + ord_axioms(strs, base + inst)
+    fs = fs + term_axioms(fs)
     seq = uses_seq(fs)
     r, s, dt = check(fs, min(timeout_ms, 2000 if seq else 8000))
     if r == z3.unsat:
